@@ -265,7 +265,11 @@ func (c *Ctx) Set(key string, v interface{}) {
 	c.mu.Unlock()
 }
 
-func (c *Ctx) Assume(s string) { c.mu.Lock(); c.Ev.Assumptions = append(c.Ev.Assumptions, s); c.mu.Unlock() }
+func (c *Ctx) Assume(s string) {
+	c.mu.Lock()
+	c.Ev.Assumptions = append(c.Ev.Assumptions, s)
+	c.mu.Unlock()
+}
 
 // Finish prints the verdict lines, writes evidence and returns the exit code.
 func (c *Ctx) Finish(runErr error) int {
@@ -355,3 +359,54 @@ func SeedFromEnv() int64 {
 
 // NewRand returns a deterministic PRNG for the given seed.
 func NewRand(seed int64) *rand.Rand { return rand.New(rand.NewSource(seed)) }
+
+// Main is the body of every vcheck binary: vcheck <Cxx> [--tier quick|thorough] [--seed N]
+func Main() {
+	if len(os.Args) < 2 {
+		fmt.Fprintf(os.Stderr, "usage: vcheck <property> [--tier quick|thorough] [--seed N]\nregistered: %v\n", Registered())
+		os.Exit(2)
+	}
+	prop := os.Args[1]
+	tier := os.Getenv("VERIF_TIER")
+	if tier == "" {
+		tier = "quick"
+	}
+	seed := SeedFromEnv()
+	for i := 2; i < len(os.Args); i++ {
+		switch os.Args[i] {
+		case "--tier":
+			i++
+			tier = os.Args[i]
+		case "--seed":
+			i++
+			n, err := strconv.ParseInt(os.Args[i], 10, 64)
+			if err != nil {
+				fmt.Fprintln(os.Stderr, "bad seed")
+				os.Exit(2)
+			}
+			seed = n
+		}
+	}
+	f, ok := Lookup(prop)
+	if !ok {
+		fmt.Fprintf(os.Stderr, "unknown property %s; registered: %v\n", prop, Registered())
+		os.Exit(2)
+	}
+	c, err := NewCtx(prop, tier, seed)
+	if err != nil {
+		fmt.Fprintln(os.Stderr, err)
+		os.Exit(2)
+	}
+	var runErr error
+	func() {
+		defer func() {
+			if r := recover(); r != nil {
+				runErr = fmt.Errorf("harness panic: %v", r)
+			}
+		}()
+		runErr = f(c)
+	}()
+	code := c.Finish(runErr)
+	c.Cleanup()
+	os.Exit(code)
+}
